@@ -25,6 +25,12 @@ by env C12_SCRIPT (default: c12_script.json next to the log), an object keyed by
     term=default|handle|ignore
                        handle: SIGTERM handler logs TERM and exits 143; ignore: handler logs TERM and sleeps on,
                        logging TICK every 20 ms from then on (proof of life after the ignored SIGTERM)
+    out=N / err=N      before finishing write N bytes without any newline inside to stdout / stderr (outnl=1, the
+                       default, ends them with one newline: a single very long line; outnl=0: no newline at all)
+    desc=plain|hash|sharp|path
+                       text of the descriptions of plain ok / not ok lines; hash/sharp contain a '#' that is no
+                       SKIP/TODO directive (lines that do carry a directive keep a '#'-free description: what a
+                       directive after such a description means is disputed between TAP versions)
     cap=S              hard lifetime cap in seconds (SIGALRM, default action), default 120
     leak=MS            right after START fork a helper that inherits stdout/stderr (keeps the harness' pipes open),
                        logs CSTART (its own pid, "ppid": the probe), sleeps MS and logs CEND; the probe itself goes
@@ -156,6 +162,21 @@ def main() -> int:
                 ev('TICK')
         else:
             time.sleep(left / 1e9)
+    # bulk output: N bytes with no newline inside (one very long line / a chunk that never ends in a newline)
+    for key, fdno in (('out', 1), ('err', 2)):
+        nbytes = int(script.get(key, '0') or 0)
+        if nbytes > 0:
+            blob = (b'.' * 1023 + b'x') * (nbytes // 1024 + 1)
+            blob = blob[:nbytes] + (b'\n' if script.get('outnl', '1') == '1' else b'')
+            try:
+                sys.stdout.flush()
+                view = memoryview(blob)
+                while view:
+                    view = view[os.write(fdno, view):]
+            except OSError:
+                pass
+    desc = {'hash': 'regression for issue #12%d', 'sharp': 'C# bindings load %d',
+            'path': 'dir/file_%d.c:10 (a,b) [x]'}.get(script.get('desc', 'plain'), 's%d')
     if tap is not None and tap != 'none':
         out = []
         if tap == 'skipall':
@@ -171,9 +192,9 @@ def main() -> int:
                     break
                 i += 1
                 if x == 'ok':
-                    out.append('ok %d - s%d' % (i, i))
+                    out.append(('ok %d - ' + desc) % (i, i))
                 elif x == 'notok':
-                    out.append('not ok %d - s%d' % (i, i))
+                    out.append(('not ok %d - ' + desc) % (i, i))
                 elif x == 'skip':
                     out.append('ok %d - s%d # SKIP scripted' % (i, i))
                 elif x == 'todo':
